@@ -169,9 +169,19 @@ CLAIMED = {
              "random histories over List, Array and PoolList are validated by TLC against RefSeq.",
         ref="5/C03", technique="TLA+ refinement model checking (TLC) + state-graph replay + exhaustive sort inputs + TLC trace validation",
         note="Array::capacity() not judged (statement silent); PoolList::front/back do not compile when instantiated and are not called."),
+    "C06": dict(
+        text="TLC model-checks ByteStrings.tla (String variables as byte-sequence values over literal / attached source buffers that "
+             "must never change; 43 operation kinds incl. self-arguments; independence and algebraic sanity) and CowStringImpl.tla "
+             "(representation kinds empty / literal / attached / owned block with capacity and reference count; detach with its "
+             "in-place condition, copy / assignment, C-string view, append / prepend as written; invariants ref = holders, no "
+             "dangling block, temporaries dead, capacity, terminator, external memory untouched, refinement); every edge of the "
+             "state graphs and seeded random histories over 3 variables and 2 exact-size external blocks run on real Strings "
+             "under ASan; every step (all variables' bytes, lengths, results, external buffers) validated by TLC against ByteStrings.",
+        ref="5/C06", technique="TLA+ refinement model checking (TLC) + state-graph replay + TLC trace validation",
+        note="Strings <= 48 bytes; Layer 2 for 2-3 variables with <= 2 bytes; raw-pointer aliasing into the String itself, empty needle for find(str,start), NUL separators excluded."),
 }
 
-PENDING_REASON = "check not built yet in this revision of /verif (planned: see DESIGN.md section 5); not claimed until its machinery runs"
+PENDING_REASON = "check being built (builder still working on the lifetime / address-stability trace specifications over the C01-C03 drivers);  of /verif (planned: see DESIGN.md section 5); not claimed until its machinery runs"
 
 
 def main():
